@@ -8,6 +8,9 @@
  *   CL id mask           which input events window id's handlers claim
  *   MU id cls act tgt    when window id sees an event of class cls (0 key, 1 mouse) it
  *                        closes (act 1) or closes and destroys (act 2) window tgt, once
+ *   RA id n <act>*n      calls window id's expose handler makes into the window layer after
+ *                        drawing, every time it runs: ea w | ex w t l h c | sh w | hi w |
+ *                        ra w | rf w | lo w | lb w
  * Observation: one record per F / TF / K / MS op (see print_* below).
  *
  * src/window.c is #included so that the harness can print the internal focus links; every
@@ -180,6 +183,7 @@ typedef struct {
   int claim;
   int nprog; Dop prog[MAXOPS];
   int mu_cls, mu_act, mu_tgt, mu_armed;
+  int nact; struct { char k[3]; int w, t, l, h, c; } act[16];   /* calls made from inside the expose handler */
 } HW;
 static HW hw[MAXW];
 static int order[MAXW * 4], norder;  /* creation order */
@@ -266,6 +270,21 @@ static int on_expose(TickitWindow *win, TickitEventFlags flags, void *_info, voi
       case 's': tickit_renderbuffer_skip_at(rb, o->a, o->b, o->c); break;
       case 'k': tickit_renderbuffer_clear(rb); break;
     }
+  }
+  for(int k = 0; k < h->nact; k++) {
+    int w = h->act[k].w;
+    if(w < 0 || w >= MAXW || !hw[w].win || hw[w].dead) continue;
+    TickitWindow *tw = hw[w].win;
+    const char *a = h->act[k].k;
+    if(!strcmp(a, "ea")) tickit_window_expose(tw, NULL);
+    else if(!strcmp(a, "ex")) { TickitRect er = { .top = h->act[k].t, .left = h->act[k].l, .lines = h->act[k].h, .cols = h->act[k].c };
+                                tickit_window_expose(tw, &er); }
+    else if(!strcmp(a, "sh")) tickit_window_show(tw);
+    else if(!strcmp(a, "hi")) tickit_window_hide(tw);
+    else if(!strcmp(a, "ra")) tickit_window_raise(tw);
+    else if(!strcmp(a, "rf")) tickit_window_raise_to_front(tw);
+    else if(!strcmp(a, "lo")) tickit_window_lower(tw);
+    else if(!strcmp(a, "lb")) tickit_window_lower_to_back(tw);
   }
   return 1;
 }
@@ -480,6 +499,22 @@ static int run_case(void)
       }
       continue;
     }
+    if(!strcmp(o, "RA")) {
+      int id = A(1), n = A(2); i += 3;
+      HW *h = (id >= 0 && id < MAXW) ? &hw[id] : NULL;
+      for(int k = 0; k < n && i < vh_ntok; k++) {
+        const char *a = vh_tok[i];
+        int isx = !strcmp(a, "ex");
+        if(h && h->nact < 16) {
+          strncpy(h->act[h->nact].k, a, 2); h->act[h->nact].k[2] = 0;
+          h->act[h->nact].w = A(1);
+          if(isx) { h->act[h->nact].t = A(2); h->act[h->nact].l = A(3); h->act[h->nact].h = A(4); h->act[h->nact].c = A(5); }
+          h->nact++;
+        }
+        i += isx ? 6 : 2;
+      }
+      continue;
+    }
     if(!strcmp(o, "CL")) { if(A(1) >= 0 && A(1) < MAXW) hw[A(1)].claim = A(2); i += 3; continue; }
     if(!strcmp(o, "MU")) {
       if(A(1) >= 0 && A(1) < MAXW) { HW *h = &hw[A(1)]; h->mu_cls = A(2); h->mu_act = A(3); h->mu_tgt = A(4); h->mu_armed = 1; }
@@ -547,6 +582,18 @@ static int run_case(void)
       for(int k = nsrec_printed; k < nsrec; k++)
         printf("%s%d,%d,%d,%d,%d,%d,%d,%d", k > nsrec_printed ? ";" : "", srec[k].id, srec[k].t, srec[k].l, srec[k].h, srec[k].w, srec[k].d, srec[k].r, srec[k].gen);
       nsrec_printed = nsrec;
+      {
+        /* pending damage and the flags, read from the root window's internals */
+        TickitRootWindow *rw = WINDOW_AS_ROOT(root);
+        size_t nd = tickit_rectset_rects(rw->damage);
+        printf(" D=");
+        if(!nd) printf("-");
+        for(size_t k = 0; k < nd; k++) {
+          TickitRect dr; tickit_rectset_get_rect(rw->damage, k, &dr);
+          printf("%s%d,%d,%d,%d", k ? ";" : "", dr.top, dr.left, dr.lines, dr.cols);
+        }
+        printf(" N=%d%d%d", rw->needs_expose ? 1 : 0, rw->needs_restore ? 1 : 0, rw->needs_later_processing ? 1 : 0);
+      }
       i += 1; continue;
     }
     if(!strcmp(o, "SC") || !strcmp(o, "SK")) {
